@@ -193,7 +193,8 @@ var Lexemes = []string{"script", "text", "movement", "mart", "mapscripts", "raw"
 	"if", "else", "elif", "do", "while", "break", "continue", "switch", "case", "default", "global", "local", "poryswitch", "const", "value", "moves",
 	"foo", "héllo", "_x1", "日本", "Bar_9", "VAR_POKé", "12", "0", "0x1F", "0xAB", "-7", "007", "9999",
 	"(", ")", "{", "}", "[", "]", ",", ":", "=", "==", "!", "!=", "<", "<=", ">", ">=", "&&", "||", "*",
-	"\"str\"", "\"mül ti\"", "\"\"", "ascii\"typed\"", "braille\"é\"", "`raw text`", "€", "&", "|", "+", "/", "-", "@"}
+	"\"str\"", "\"mül ti\"", "\"\"", "ascii\"typed\"", "braille\"é\"", "`raw text`", "€", "&", "|", "+", "/", "-", "@",
+	"\"part one\"\x02\"part two\"", "\"a\"\x02\"b\"\x02\"c\"", "ascii\"x\"\x02\"y\""}
 
 // GenLexemes returns a lexeme sequence (no two adjacent string literals: they would join).
 func GenLexemes(r *Rng) Toks {
